@@ -922,5 +922,40 @@ def expand_dims(a: AArr, axis):
     return AArr(axes, a.term, a.buf, view=True, dtype=a.dtype)
 
 
+def reshape(a: AArr, shape):
+    """only reshapes that insert / remove length-1 axes keep every entry under its labels; a reshape that regroups a labelled
+    array's entries does so by position"""
+    a.check_fresh()
+    shape = [int(s) for s in shape]
+    if shape.count(-1) > 1:
+        raise NumpyRaise("ValueError", "can only specify one unknown dimension")
+    total = 1
+    for ax in a.axes:
+        total *= axis_len(ax)
+    if -1 in shape:
+        known = 1
+        for s in shape:
+            if s != -1:
+                known *= s
+        if known == 0 or total % known:
+            raise NumpyRaise("ValueError", f"cannot reshape array of size {total} into shape {tuple(shape)}")
+        shape[shape.index(-1)] = total // known
+    n = 1
+    for s in shape:
+        n *= s
+    if n != total:
+        raise NumpyRaise("ValueError", f"cannot reshape array of size {total} into shape {tuple(shape)}")
+    src = [ax for ax in a.axes if axis_len(ax) != 1]
+    tgt = [s for s in shape if s != 1]
+    if [axis_len(ax) for ax in src] != tgt:
+        if sum(1 for ax in src if is_labelled(ax)) >= 2 and len(tgt) >= 2:
+            raise ModelViolation(f"reshape of an array over {len(src)} labelled axes (lengths {[axis_len(x) for x in src]}) to shape {tuple(shape)} regroups "
+                                 f"its entries by position: they no longer sit under their labels")
+        raise ModelAbort("reshape that merges or splits axes")
+    it = iter(src)
+    axes = [ONE if s == 1 else next(it) for s in shape]
+    return AArr(axes, a.term, a.buf, view=True, dtype=a.dtype)
+
+
 def same_entries(a: AArr, b: AArr) -> bool:
     return tuple(a.axes) == tuple(b.axes) and a.term == b.term
